@@ -221,15 +221,20 @@ Definition index_item (i : nat) (it : ty) : res ty :=
   | _ => Rej None
   end.
 
+Definition has_tuple (t : ty) : bool :=
+  existsb (fun i => match i with TTuple _ => true | _ => false end) (items t).
+
 Definition binop_ty (P : prog) (op : binop) (t1 t2 : ty) : res ty :=
   let i1 := is_subtype P t1 TInt in let i2 := is_subtype P t2 TInt in
   let s1 := is_subtype P t1 TStr in let s2 := is_subtype P t2 TStr in
+  (* tuple concatenation / repetition / comparison are typed by mypy with types outside this type language *)
+  let tup := has_tuple t1 || has_tuple t2 in
   match op with
-  | BAdd => if i1 && i2 then Ok TInt else if s1 && s2 then Ok TStr else Rej None
+  | BAdd => if i1 && i2 then Ok TInt else if s1 && s2 then Ok TStr else if tup then Unsup 13 else Rej None
   | BSub => if i1 && i2 then Ok TInt else Rej None
-  | BMul => if i1 && i2 then Ok TInt else if (s1 && i2) || (i1 && s2) then Ok TStr else Rej None
+  | BMul => if i1 && i2 then Ok TInt else if (s1 && i2) || (i1 && s2) then Ok TStr else if tup then Unsup 13 else Rej None
   | BEq => if (i1 && i2) || (s1 && s2) then Ok TBool else Unsup 3   (* equality narrowing is not modelled *)
-  | BLt => if (i1 && i2) || (s1 && s2) then Ok TBool else Rej None
+  | BLt => if (i1 && i2) || (s1 && s2) then Ok TBool else if tup then Unsup 13 else Rej None
   end.
 
 Definition cref_ok (P : prog) (k : cref) : bool :=
